@@ -1,4 +1,75 @@
+"""C09, runner side: the documented wait strategy of the thread runner.
+
+(a) ThreadRunner._waiting_for_results marks exactly the waiter; _reclaim_available_slots removes a mark only together with the
+    waiter's own finished thread and reports capacity minus the live threads that are not waiting (both verified in the C11 module's
+    registry, see `parts`);
+(b) lemma: when every live task thread is marked as waiting, at least one slot is free (capacity >= 1), so the poll asks the
+    orchestrator for work and the blocking invocations come first (glue contract of get_invocations_to_run);
+(c) syntactic obligation on the wait loops of dist_invocation.py: every iteration of a wait loop announces the wait to the runner
+    (a statement of the loop body itself, not under a once-only guard) - the mark is dropped whenever the waiter's thread ends,
+    so a waiter that still waits must keep re-announcing."""
+from __future__ import annotations
+
+import ast
+
+import z3
+
+from pyvc.solve import Obligation
+
+PID = "C09"
+DI = "pynenc/invocation/dist_invocation.py"
+PARTS = [("contracts.c11", ["pynenc.runner.thread_runner:ThreadRunner._waiting_for_results",
+                            "pynenc.runner.thread_runner:ThreadRunner._reclaim_available_slots",
+                            "pynenc.runner.thread_runner:ThreadRunner._on_start"])]
+
+
 def contracts(T, reg, ctx):
     return []
+
+
+def _is_runner_announce(stmt) -> bool:
+    call = stmt.value if isinstance(stmt, ast.Expr) else None
+    if isinstance(call, ast.Await):
+        call = call.value
+    if not isinstance(call, ast.Call) or not isinstance(call.func, ast.Attribute):
+        return False
+    if call.func.attr not in ("waiting_for_results", "async_waiting_for_results"):
+        return False
+    base = call.func.value
+    return isinstance(base, ast.Attribute) and base.attr == "runner"
+
+
+def wait_strategy(ctx):
+    out = []
+
+    def ob(name, ok, detail="", fn=DI):
+        o = Obligation(name=f"{PID}/wait-strategy/{name}", kind="lemma", pc=[], goal=z3.BoolVal(bool(ok)), function=fn)
+        o.detail = detail
+        out.append(o)
+    # (b) one-step progress of the slot accounting
+    cap, live_not_waiting, free = z3.Ints("capacity live_threads_not_waiting free_slots")
+    o = Obligation(name=f"{PID}/wait-strategy/all-live-threads-waiting=>a-slot-is-free", kind="lemma",
+                   pc=[cap >= 1, free == cap - live_not_waiting, live_not_waiting == 0], goal=free >= 1,
+                   function="ThreadRunner._reclaim_available_slots (postcondition) + _on_start (max_threads >= 1)")
+    out.append(o)
+    # (c) wait loops
+    import os
+    tree = ast.parse(open(os.path.join(ctx.repo, DI)).read())
+    found = 0
+    for cls in [n for n in tree.body if isinstance(n, ast.ClassDef)]:
+        for fn in [n for n in cls.body if isinstance(n, (ast.FunctionDef, ast.AsyncFunctionDef))]:
+            if fn.name not in ("result", "async_result", "results", "async_results"):
+                continue
+            loops = [n for n in ast.walk(fn) if isinstance(n, ast.While)]
+            for k, loop in enumerate(loops):
+                found += 1
+                direct = any(_is_runner_announce(s) for s in loop.body)
+                ob(f"{cls.name}.{fn.name}:wait-loop{k}:every-iteration-announces-the-wait-to-the-runner", direct,
+                   detail="the runner's waiting mark is dropped when the waiter's thread ends and is only set by this announcement; "
+                          "a loop that announces once (or under a guard) can run unmarked and occupy a slot while it waits")
+    ob("wait-loops-found", found >= 4, detail=f"{found} wait loops recognised in {DI} (result, async_result, results, async_results)")
+    return out
+
+
 def lemmas(T, reg, ctx):
-    return []
+    return [wait_strategy]
